@@ -501,7 +501,7 @@ prop("C07", ["l1", "l2", "conc"], "exploration",
 prop("C08", ["l1", "l2", "conc"], "exploration",
      L1_RULE + L2_RULE + CONC_RULE + "After a concurrent phase an entry that was certainly served from the cache must not be evicted while a certainly never-hit entry (sync caches: the newcomer) is available. " + "Non-trivial = an overflowing store under LFU/ARC/TLRU whose victim must be a score minimiser over the residents or over residents+newcomer; distinct = distinct (configuration, order shape, hit-count vector).",
      COMMON_ASSUME + ["sync engines always hold a zero-score newcomer, so for them the check only establishes that a zero-score entry was evicted (stated in DESIGN.md C08)"], ("C08", "victims_checked_with_unique_resident_minimiser"))
-prop("C16", ["l1", "l2", "miri"], "exploration",
+prop("C16", ["l1", "l2", "conc", "miri"], "exploration",
      L1_RULE + "Every operation runs under catch_unwind in a build with overflow checks and debug assertions. Non-trivial/distinct = configurations of the full product visited (each with overflow-heavy histories).",
      COMMON_ASSUME, ("C16", "ops_under_catch_unwind"))
 prop("C02", ["key", "l2"], "exploration",
@@ -671,8 +671,17 @@ LEVEL_NOTE = ("Trusted: the specification model (harness/vmon/src/model.rs, writ
 NOT_CLAIMED = {}
 
 
+# an entry evicted although nothing required it is, for the call that stored it, a result that is
+# not "served on the next call": in the runs that focus on Result functions / cache_if /
+# invalidate_on the needless-eviction kinds also refute C09 / C10 / C11
+NEEDLESS = {"needless-or-multiple-eviction", "eviction-while-everything-fits", "needless-eviction-under-memory-limit",
+            "lookup-removed-live-entry", "eviction-count"}
+NEEDLESS_ALL = NEEDLESS | {k + "-after-" + c for k in NEEDLESS for c in ("expiry-purge", "conditional-invalidation", "group-invalidation")}
 ALSO_REFUTES = {
     "C01": [("C02", {"distinct-tuples-share-entry", "served-from-another-tuples-entry", "repeat-call-served-other-entry"})],
+    "C09": [(p, NEEDLESS_ALL) for p in ("C04", "C05", "C06", "C13")],
+    "C10": [(p, NEEDLESS_ALL) for p in ("C04", "C05", "C06", "C13")],
+    "C11": [(p, NEEDLESS_ALL) for p in ("C04", "C05", "C06", "C13")],
 }
 
 
@@ -717,7 +726,7 @@ def main():
             continue
         for (src, kinds) in ALSO_REFUTES.get(pid, []):
             parts = v["sig"].split("|")
-            if v.get("property") == src and parts[4] in kinds:
+            if v.get("property") == src and parts[4] in kinds and (src == "C02" or parts[1] == "L2"):
                 parts[0] = pid
                 v["also_refutes"] = src
                 v["property"] = pid
